@@ -83,7 +83,7 @@ func splitLines(text []byte) [][]byte {
 
 // applyLayout transforms canonical text. recLines gives, for FASTA/FASTQ, the
 // number of canonical lines of each record (header first).
-func applyLayout(kind string, text []byte, l Layout, recLines []int) []byte {
+func applyLayout(kind string, text []byte, l Layout, recLines []int, seqPrefix string) []byte {
 	lines := splitLines(text)
 	r := simrt.NewRNG(l.Seed)
 	type ln struct {
@@ -99,14 +99,14 @@ func applyLayout(kind string, text []byte, l Layout, recLines []int) []byte {
 			if l.Rewrap > 0 {
 				var letters []byte
 				for _, s := range lines[i+1 : i+k] {
-					letters = append(letters, s...)
+					letters = append(letters, bytes.TrimPrefix(s, []byte(seqPrefix))...)
 				}
 				for p := 0; p < len(letters); p += l.Rewrap {
 					e := p + l.Rewrap
 					if e > len(letters) {
 						e = len(letters)
 					}
-					out = append(out, ln{letters[p:e], false})
+					out = append(out, ln{append([]byte(seqPrefix), letters[p:e]...), false})
 				}
 			} else {
 				for _, s := range lines[i+1 : i+k] {
@@ -200,7 +200,7 @@ func runC04(t *testing.T, c *Case, o RunOpts) *Result {
 				recLines = append(recLines, 4)
 			}
 		}
-		tt := applyLayout(sp.Format, text, pl.Layout, recLines)
+		tt := applyLayout(sp.Format, text, pl.Layout, recLines, sp.SeqPrefix)
 		src := simio.NewSource(tt, pl.Delivery)
 		got, v := readSeqs(sp, src, len(sp.Recs)+2)
 		res.Steps = src.Reads
@@ -244,7 +244,7 @@ func runC04(t *testing.T, c *Case, o RunOpts) *Result {
 		res.Trivial = true
 		return res
 	}
-	tt := applyLayout(fp.Format, text, pl.Layout, nil)
+	tt := applyLayout(fp.Format, text, pl.Layout, nil, "")
 	src := simio.NewSource(tt, pl.Delivery)
 	got, v := readFeats(fp, src, n+2)
 	res.Steps = src.Reads
